@@ -153,7 +153,10 @@ def _r1(ctx, pkg):
 def _r2(ctx, pkg):
     fn = pkg.method("Network", "_add_reaction")
     ctx.saw(NF, "Network._add_reaction")
-    fl = Flow(fn, NF)
+    # the steps may sit in helper methods (conversion, the filter predicate, the recording of an admitted reaction): statement
+    # helpers are put back where they are called, value / predicate helpers are followed by the flow
+    fn = pkg.expanded("Network", "_add_reaction")
+    fl = Flow(fn, NF, resolver=lambda name: pkg.resolve("Network", name)[1])
     app = [f for f in fl.facts if f.kind == "call" and f.target == "append" and f.value[1] == RL]
     skip = [f for f in fl.facts if f.kind == "call" and f.target == "append" and f.value[1] == ("attr", SELF, "_skipped_reactions")]
     if len(app) != 1:
